@@ -100,6 +100,11 @@ def observe_case(spec):
     try:
         emb = Lark(gtext, parser='lalr', maybe_placeholders=spec['ph'], keep_all_tokens=spec['ka'],
                    transformer=make_transformer(Transformer, names, tnames, style, elog))
+        # the other three classes embedded as well (one of them per case, to keep the run short)
+        ocls = (Transformer_NonRecursive, Transformer_InPlace, Transformer_InPlaceRecursive)[len(gtext) % 3]
+        olog = []
+        oemb = Lark(gtext, parser='lalr', maybe_placeholders=spec['ph'], keep_all_tokens=spec['ka'],
+                    transformer=make_transformer(ocls, names, tnames, style, olog))
     except Exception as e:
         case['skip'] = 'embedded: ' + type(e).__name__
         return case
@@ -118,6 +123,12 @@ def observe_case(spec):
             variants.append(['embedded', val4(r), [val4(x) for x in elog]])
         except Exception as e:
             variants.append(['embedded', ['O', 'EXC:' + type(e).__name__, 0, []], []])
+        del olog[:]
+        try:
+            r = oemb.parse(text)
+            variants.append(['embedded-' + ocls.__name__, val4(r), [val4(x) for x in olog]])
+        except Exception as e:
+            variants.append(['embedded-' + ocls.__name__, ['O', 'EXC:' + type(e).__name__, 0, []], []])
         for cls in (Transformer, Transformer_NonRecursive, Transformer_InPlace, Transformer_InPlaceRecursive):
             log = []
             t = make_transformer(cls, names, tnames, style, log)
@@ -199,7 +210,7 @@ def body(tier, seed, replay):
                 items.append(dict(it, gtext=c['gtext'], spec=c['spec']))
                 ev.count('trees')
                 ev.count('callback_calls', sum(len(v[2]) for v in it['variants']))
-        ev.cov['traces_validated_against_impl'] = len(items) * 5
+        ev.cov['traces_validated_against_impl'] = len(items) * 6
         it = next(i for i in items if len(i['variants'][0][2]) >= 3)
         ev.sample({'grammar': it['gtext'], 'text': it['text'], 'callbacks': it['cbs'], 'embedded_result': it['variants'][0][1]})
         judge(items, ev, rep, tmp, 'sweep')
